@@ -278,43 +278,60 @@ def s_range(*a):
     return range(*[core.concretize(x, limit=256) for x in a])
 
 
+def _minmax(native, pick, a, k):
+    """min / max over ints that may be symbolic; iterables are materialised exactly once."""
+    if len(a) == 1:
+        items = list(a[0])
+        rest = (items,)
+    else:
+        items = list(a)
+        rest = tuple(items)
+    key = k.get("key")
+    if not any(isinstance(x, _SYM) for x in items):
+        return native(*rest, **k)
+    if key is not None:
+        raise Unmodelled("min/max(key=) with symbolic items")
+    if not items:
+        if "default" in k:
+            return k["default"]
+        raise ValueError("min()/max() iterable argument is empty")
+    r = items[0]
+    for x in items[1:]:
+        (xl, xh), (rl, rh) = core._iv(x), core._iv(r)
+        lo = hi = None
+        if None not in (xl, xh, rl, rh):
+            lo, hi = pick(xl, rl), pick(xh, rh)
+        cond = bv(x) < bv(r) if pick is min else bv(x) > bv(r)
+        r = SInt(z3.simplify(z3.If(cond, bv(x), bv(r))), lo, hi)
+    return r
+
+
 def s_min(*a, **k):
-    if k or len(a) == 1:
-        if len(a) == 1 and not k:
-            return s_min(*list(a[0]))
-        if not any(isinstance(x, _SYM) for x in (a[0] if len(a) == 1 else a)):
-            return min(*a, **k)
-        raise Unmodelled("min(key=) with symbolic items")
-    if any(isinstance(x, SInt) for x in a):
-        r = a[0]
-        for x in a[1:]:
-            (xl, xh), (rl, rh) = core._iv(x), core._iv(r)
-            lo = hi = None
-            if None not in (xl, xh, rl, rh):
-                lo, hi = min(xl, rl), min(xh, rh)
-            r = SInt(z3.simplify(z3.If(bv(x) < bv(r), bv(x), bv(r))), lo, hi)
-        return r
-    return min(*a)
+    return _minmax(min, min, a, k)
 
 
 def s_max(*a, **k):
-    if k or len(a) == 1:
-        seq = list(a[0]) if len(a) == 1 else a
-        if not any(isinstance(x, _SYM) for x in seq):
-            return max(*a, **k)
-        if len(a) == 1 and not k:
-            return s_max(*seq)
-        raise Unmodelled("max(key=) with symbolic items")
-    if any(isinstance(x, SInt) for x in a):
-        r = a[0]
-        for x in a[1:]:
-            (xl, xh), (rl, rh) = core._iv(x), core._iv(r)
-            lo = hi = None
-            if None not in (xl, xh, rl, rh):
-                lo, hi = max(xl, rl), max(xh, rh)
-            r = SInt(z3.simplify(z3.If(bv(x) > bv(r), bv(x), bv(r))), lo, hi)
+    return _minmax(max, max, a, k)
+
+
+def s_divmod(a, b):
+    if isinstance(a, _SYM) or isinstance(b, _SYM):
+        return a // b, a % b
+    return divmod(a, b)
+
+
+def s_sum(items, start=0):
+    items = list(items)
+    if any(isinstance(x, _SYM) for x in items) or isinstance(start, _SYM):
+        r = start
+        for x in items:
+            r = r + x
         return r
-    return max(*a)
+    return sum(items, start)
+
+
+def s_abs(x):
+    return abs(x)
 
 
 def s_bytes(x=b"", *a):
@@ -362,6 +379,15 @@ def s_bool(x=False):
 
 def s_join(sep, items):
     items = list(items)
+    if isinstance(sep, (bytes, bytearray)):
+        if any(isinstance(i, (SBytes, SBlob, SRope)) for i in items):
+            out = b""
+            for n, it in enumerate(items):
+                if n:
+                    out = out + sep
+                out = out + it
+            return out
+        return sep.join(items)
     if isinstance(sep, SStr) or any(isinstance(i, SStr) for i in items):
         return SStr.of(sep).join(items)
     return sep.join(items)
@@ -606,6 +632,8 @@ HELPERS = {
     "_sx_format": s_format,
     "_sx_min": s_min,
     "_sx_max": s_max,
+    "_sx_divmod": s_divmod,
+    "_sx_sum": s_sum,
     "_sx_bytes": s_bytes,
     "_sx_ord": s_ord,
     "_sx_chr": s_chr,
@@ -625,6 +653,8 @@ BUILTIN_MAP = {
     "range": "_sx_range",
     "min": "_sx_min",
     "max": "_sx_max",
+    "divmod": "_sx_divmod",
+    "sum": "_sx_sum",
     "bytes": "_sx_bytes",
     "ord": "_sx_ord",
     "chr": "_sx_chr",
